@@ -56,8 +56,9 @@ CHECKS.update({
              "(regex -> SMT, /verif/spec/lexemes.py: base prefix without digits, exponent without digits, unterminated string / block comment, "
              "identifier with forbidden character, malformed version header) the first token carries a diagnostic.",
         note="Trusted: MIR dump, string model and Unicode tables (read from the locked crate versions), z3. Bounds: tokens <= 4 (quick) / 6 "
-             "(thorough) chars, whole strings <= 2 / 3 chars, version header prefix + 3 / 4 chars. Parts (b), (c) (gating of parser and "
-             "semantic analysis) are covered when vf/gating.py is present; otherwise outside the claim.",
+             "(thorough) chars, whole strings <= 2 / 3 chars, version header prefix + 3 / 4 chars. Parts (b), (c): parse_text_check_lex / "
+             "SourceFile::parse_check_lex and analyze_source::<SourceFile> with SourceTrait::have_syntax_errors are executed from MIR with the "
+             "neighbouring stages as recording stubs (0-2 lexical errors; include trees <= 3/4 files, depth 3).",
         technique=MC, design="6/C11"),
     "C14": dict(
         text="One advance_token from an arbitrary string of n symbolic code points (the inductive step: the cursor carries no other state, "
@@ -84,6 +85,15 @@ CHECKS.update({
              "symbolic characters in U+0000..U+03FF, identifiers <= 3 chars, literals <= 5 chars, pairs of lexemes (quick: every class against "
              "12 representative neighbours on both sides; thorough: all pairs).",
         technique=MC, design="6/C15"),
+    "C18": dict(
+        text="Part (a), ordered path search: resolve_file_path is executed from MIR with the file system as a symbolic oracle (is_absolute and "
+             "is_file are free booleans; explicit list and environment list absent or 0-3 directories). Proved for all oracle answers: the "
+             "result is the path itself if absolute, else the first existing dir/path of the explicit list if one is given (environment never "
+             "consulted), else of the environment list, else the path as given. Parts (b), (c) (include parsing/analysis lock-step, in-place "
+             "inclusion) are not claimed (need the AST boundary).",
+        note="Trusted: Path/PathBuf abstract values with structural join, get_file_search_paths_from_env stubbed (env::split_paths not "
+             "analysed), MIR dump, z3. Violations of this part are not replayed natively (no public entry point with an oracle file system).",
+        technique=MC, design="6/C18"),
     "C19": dict(
         text="All of symbols.rs is executed from MIR with hashbrown::HashMap replaced by an abstract finite map; the history's opcodes and name "
              "characters are solver variables, so every history of the property's operations up to the bound is one explored path. After each "
